@@ -93,6 +93,29 @@ SCALE = {
  'C20': 'Beyond the small bound: a 298-atom structure with the count-dependent options; input names with two dots; --mic 5.0 next to --replicate (order matters) and 4.5 (2 x mic equals the cell length) alone.',
 }
 
+HIST = {
+ 'C01': 'Histories: 21 histories x 6 bases (structure / pattern searched, edited in place, replicated, copied, mirrored, re-used with other hints or structures before); the per-match oracle is applied to the current content.',
+ 'C02': 'Histories: the same 21 x 6 histories judged by the reference matcher on the current content.',
+ 'C03': 'Histories: the same histories judged by the fresh differential (the search on objects with a past equals the search on freshly constructed equal objects, same draw answers); inputs built from one coordinate array must not move each other.',
+ 'C04': 'Histories: 15 replacement histories x 4 bases (patterns re-used with other partners, translated in place, results replicated / resized / copied, nothing-to-replace calls) judged by the fresh differential, untouched inputs and the shared-data probe.',
+ 'C05': 'Histories: the same 15 x 4 replacement histories (inserted atoms in the replica of a result, after cell changes, with re-used patterns).',
+ 'C06': 'Every transition of the state graph is a step of a replacement history (depth 2-3); transitions also use the probes of C09 through the shared model.',
+ 'C07': 'Histories: the 15 replacement histories on chains / stars whose occurrences share an atom, with the overlap flag on and off: refusal or acceptance must be that of fresh objects with the same content.',
+ 'C08': 'Histories: the 15 replacement histories; A->B, replicate 2x1x1, B->A must give the replica of the original.',
+ 'C09': 'Every second subtree is explored warm (read-only calls and file writes before every operation); every transition checks untouched inputs (fragments, patterns, identity map), runs the shared-data probe between result and inputs, saves twice and checks atoms.elements against the resolved view.',
+ 'C10': 'Histories: every ordered pair of deletions of <= 2 atoms and pop sequences on one object (also through copy()), structures that were given the same term array by attribute assignment.',
+ 'C11': 'Histories: one fragment object and one identity-map dict used for two extensions (the second into the structure with its extra columns in reverse order), 54 combinations x 2 routes; map and fragment must come back unchanged.',
+ 'C12': 'Histories: read-only calls, a discarded replication or a replication of a replica before replicating (72 cases); shared-data probe between replica and original; replica.elements against the resolved view.',
+ 'C13': 'Histories: saved, then labels replaced / coefficients, positions, charges edited in place / cell doubled / replicated, saved again and judged by the independent reader; loose-tolerance load before a default one.',
+ 'C14': 'Histories: tolerance sequences (helper and loader); files whose free-text mass labels stand for other masses than in the previous file, 6 orders.',
+ 'C15': 'Histories: written, then replicated / cell stretched / positions scaled in place, written again and judged by the independent tokenizer; a copy extended by a new extra column must not change how the original is written.',
+ 'C16': 'Histories: a loaded molecule is edited in place by supported operations (an atom adopts another type through extend with shared ids, translate, delete, extend) before the same document is loaded again from file and path.',
+ 'C17': 'Histories: bonds detected, then replica / doubled cell / shift-and-wrap / the same atoms without a cell / a copy with a larger cell, detected again and judged by the reference rule (8 cells x 4 assemblies x 5 histories).',
+ 'C18': 'Histories: one rules list object edited in place between calls (append, retune, insert, pop, clear) for every third type x every second partner; values written into returned lists before the next call.',
+ 'C19': 'Histories: one exclusion-set object through all 6 call orders of the three assign functions (8 sets x 2 presentations; the set must come back unchanged); a bond list / array edited in place between enumerations; repeated typing.',
+ 'C20': 'The command line is invoked thousands of times in one process with changing inputs and options and compared with the API driver each time, so state kept between invocations shows as a difference.',
+}
+
 NOT_YET = {}
 
 
@@ -104,6 +127,7 @@ def main():
         if pid in CHECKS and os.path.exists(os.path.join(VERIF, 'mc', 'checks', pid + '.py')):
             eng, tech, text, note, ref = CHECKS[pid]
             text = text + ' ' + SCALE[pid] if pid in SCALE else text
+            text = text + ' ' + HIST[pid] if pid in HIST else text
             checks.append(dict(property_id=pid, quick_cmd='./check %s quick' % pid, thorough_cmd='./check %s thorough' % pid,
                                evidence_file='/verif/evidence/%s.json' % pid, replay_cmd_template='./check %s --replay {path}' % pid,
                                engine=eng, technique=tech,
